@@ -676,7 +676,7 @@ where
         // during the current revision and thus obtained an `&` reference to those fields
         // that is still live.
 
-        {
+        let last_updated_at = {
             // SAFETY: `updated_at` is never exclusively borrowed, so borrowing it is sound
             let last_updated_at = unsafe { (*data_raw).updated_at.load() };
             assert!(
@@ -712,7 +712,32 @@ where
                     must have been leaked across threads"
                 );
             }
+
+            last_updated_at
+        };
+
+        // Updating the fields runs user code (`Update` / `PartialEq` implementations) that may panic.
+        // Release the write lock in that case, or the struct could never be updated or read again.
+        // The query that owns the struct did not complete, so it re-executes and updates every field
+        // again before anything can read them.
+        struct UnlockOnUnwind<'a> {
+            updated_at: &'a OptionalAtomicRevision,
+            last_updated_at: Option<Revision>,
         }
+
+        impl Drop for UnlockOnUnwind<'_> {
+            fn drop(&mut self) {
+                if crate::sync::thread::panicking() {
+                    self.updated_at.swap(self.last_updated_at);
+                }
+            }
+        }
+
+        let _unlock_on_unwind = UnlockOnUnwind {
+            // SAFETY: `updated_at` is never exclusively borrowed, so borrowing it is sound
+            updated_at: unsafe { &(*data_raw).updated_at },
+            last_updated_at,
+        };
 
         // SAFETY: We have claimed mutable access by swapping `None` into
         // `updated_at`, so the retained fields are exclusively borrowed.
